@@ -35,6 +35,7 @@ let () =
           match model with
           | "codec" -> (match hd with [k; c] -> run_codec k c ops | _ -> [[n_of_int 98]])
           | "topics" -> run_topics ops
+          | "ackq" -> (match hd with [s] -> run_ackq s ops | _ -> [[n_of_int 98]])
           | _ -> [[n_of_int 97]] in
         print_groups out
     done
